@@ -107,6 +107,7 @@ def effName (raw : List Bytes) : String :=
 /-- the command that touches the dataset -/
 def effCmd (raw : List Bytes) : List Bytes := (unwrap raw).getD raw
 
+def delCmd (key : Bytes) : List Bytes := [[68, 69, 76], key]
 def selectCmd (db : Nat) : List Bytes := [[83, 69, 76, 69, 67, 84], natDigits db]
 def popCmd (left : Bool) (key : Bytes) : List Bytes := [if left then [76, 80, 79, 80] else [82, 80, 79, 80], key]
 
@@ -148,11 +149,16 @@ inductive Ev where
       client is served, or at once by `handle_blpop`/`handle_brpop` on a non-empty list (the BLPOP command itself, which
       is not in the table, is a separate `cmd` event without effect) -/
   | wake (db : Nat) (now : Nat) (left : Bool) (key : Bytes)
+  /-- TIME PASSES: the server removes `key` from database `db` because its time to live has elapsed — lazily, when a
+      command is about to look at it (`StorageEngine::get_shard`), or by the sweeper thread.  No client sent anything;
+      the dataset changes all the same. -/
+  | expire (db : Nat) (now : Nat) (key : Bytes)
   deriving Repr, DecidableEq
 
 def execEv (q : Quirks) (c : Conn) : Ev → Conn
   | .cmd _ now obs raw => execRaw q c now obs raw
   | .wake db now left key => { c with store := (KS.step q c.store db now (popCmd left key) none).1 }
+  | .expire db _ key => { c with store := setDb c.store db (erase (getDb c.store db) key) }
 
 /-- the live server after a history -/
 def liveFrom (q : Quirks) (c : Conn) (h : List Ev) : Conn := h.foldl (execEv q) c
@@ -172,6 +178,9 @@ structure Cfg where
       `SPOP key [count]` that took `m…` as `SREM key m…` (nothing if it took nothing), `XADD key * f v…` that was
       assigned `id` as `XADD key id f v…` (nothing if refused) — instead of verbatim before the dispatch -/
   byEffect : Bool := false
+  /-- the removal of a key whose time to live elapsed is appended as `DEL key` (ahead of the entries of the command
+      that was about to look at it) -/
+  logExpiry : Bool := false
   deriving Repr, DecidableEq
 
 /-- the code as it is, with write table `w` (= `Gen.writeCommands`) -/
@@ -181,8 +190,11 @@ def Cfg.code (w : List String) : Cfg := { writes := w, logSelect := false, logWa
 def Cfg.tree (w : List String) (sel wake : Bool) : Cfg := { writes := w, logSelect := sel, logWake := wake }
 /-- … plus "are random / clock outcomes logged by their effect?" -/
 def Cfg.treeE (w : List String) (sel wake eff : Bool) : Cfg := { writes := w, logSelect := sel, logWake := wake, byEffect := eff }
+/-- … plus "is the removal of an expired key logged as a DEL?" -/
+def Cfg.treeX (w : List String) (sel wake eff exp : Bool) : Cfg :=
+  { writes := w, logSelect := sel, logWake := wake, byEffect := eff, logExpiry := exp }
 /-- what the property prescribes, with write table `w` -/
-def Cfg.fixed (w : List String) : Cfg := { writes := w, logSelect := true, logWake := true, byEffect := true }
+def Cfg.fixed (w : List String) : Cfg := { writes := w, logSelect := true, logWake := true, byEffect := true, logExpiry := true }
 
 def isWrite (w : List String) (name : String) : Bool := w.contains name
 
@@ -237,6 +249,9 @@ def logEv (cfg : Cfg) (st : LogSt) : Ev → List (List Bytes) × LogSt
   | .wake db _ left key =>
     if cfg.logWake then (selFor cfg st db ++ [popCmd left key], { st with file := fileAfter cfg st db })
     else ([], st)
+  | .expire db _ key =>
+    if cfg.logExpiry then (selFor cfg st db ++ [delCmd key], { st with file := fileAfter cfg st db })
+    else ([], st)
 
 def logFrom (cfg : Cfg) (st : LogSt) : List Ev → List (List Bytes)
   | [] => []
@@ -263,7 +278,7 @@ structure FileSt where
 /-- What one event appends.  `process_normal_command`, the block before the dispatch:
     `if is_write_command(name) { aof.append_command_in_db(db, parts) }` — whatever the outcome will be;
     `log_blocking_pop` (`wake = true`): the pop made for a BLPOP/BRPOP client, as `LPOP key` / `RPOP key`. -/
-def fileStep (w : List String) (sel wake eff : Bool) (s : FileSt) : Ev → FileSt
+def fileStep (w : List String) (sel wake eff exp : Bool) (s : FileSt) : Ev → FileSt
   | .cmd _ _ obs raw =>
     let conn' := if nameOf raw = "SELECT" then selTarget s.conn raw else s.conn
     if isWrite w (nameOf raw) then
@@ -276,9 +291,14 @@ def fileStep (w : List String) (sel wake eff : Bool) (s : FileSt) : Ev → FileS
     if wake then
       { s with file := (appendInDb sel s.last s.file db (popCmd left key)).1, last := (appendInDb sel s.last s.file db (popCmd left key)).2 }
     else s
+  | .expire db _ key =>
+    -- `log_expired_keys`: `DEL key` for every key the storage engine reports as removed by expiry
+    if exp then
+      { s with file := (appendInDb sel s.last s.file db (delCmd key)).1, last := (appendInDb sel s.last s.file db (delCmd key)).2 }
+    else s
 
 /-- the state of the file after a history -/
-def fileAfter (w : List String) (sel wake eff : Bool) (s : FileSt) (h : List Ev) : FileSt := h.foldl (fileStep w sel wake eff) s
+def fileAfter (w : List String) (sel wake eff exp : Bool) (s : FileSt) (h : List Ev) : FileSt := h.foldl (fileStep w sel wake eff exp) s
 
 end Code
 
@@ -370,6 +390,7 @@ def inModel : Ev → Bool
   | .cmd _ _ _ raw =>
     nameOf raw = "SELECT" ∨ (KS.cmdNames.contains (effName raw) ∧ ¬ (effName raw = "XADD" ∧ (effCmd raw)[2]? = some [42]))
   | .wake db _ _ _ => db < 16
+  | .expire db _ _ => db < 16
 
 /-- The event is one the log `cfg` represents faithfully:
     * a command that can change the dataset is in the table (for the script path: EVAL is);
@@ -377,7 +398,8 @@ def inModel : Ev → Bool
       SPOP, or SPOP itself (not inside a script) is logged by its effect;
     * whenever an entry is written, the reader of the log is in the database the command ran in
       (always true with SELECT tracking; without it, the connection must be in the database the reader is in);
-    * a pop served to a blocked client is logged. -/
+    * a pop served to a blocked client is logged;
+    * the removal of an expired key is logged. -/
 def covered (cfg : Cfg) (st : LogSt) : Ev → Bool
   | .cmd _ _ _ raw =>
     nameOf raw = "SELECT" ∨
@@ -385,6 +407,7 @@ def covered (cfg : Cfg) (st : LogSt) : Ev → Bool
        (¬ Spec.randomWrites.contains (effName raw) ∨ (cfg.byEffect ∧ nameOf raw = "SPOP")) ∧
        (isWrite cfg.writes (nameOf raw) → cfg.logSelect ∨ st.conn = st.file))
   | .wake db _ _ _ => cfg.logWake ∧ (cfg.logSelect ∨ db = st.file)
+  | .expire db _ _ => cfg.logExpiry ∧ (cfg.logSelect ∨ db = st.file)
 
 def coveredFrom (cfg : Cfg) (st : LogSt) : List Ev → Bool
   | [] => true
@@ -410,6 +433,7 @@ def drawOk (q : Quirks) (c : Conn) : Ev → Bool
   | .cmd _ now obs raw =>
     nameOf raw = "SPOP" → obs.getD [] ≠ [] → isErrReply (KS.step q c.store c.cur now raw obs).2 = false
   | .wake _ _ _ _ => true
+  | .expire _ _ _ => true
 
 def drawsOk (q : Quirks) (c : Conn) : List Ev → Bool
   | [] => true
@@ -418,14 +442,22 @@ def drawsOk (q : Quirks) (c : Conn) : List Ev → Bool
 def evDb (c : Conn) : Ev → Nat
   | .cmd _ _ _ _ => c.cur
   | .wake db _ _ _ => db
+  | .expire db _ _ => db
 
 def evNow : Ev → Nat
   | .cmd _ now _ _ => now
   | .wake _ now _ _ => now
+  | .expire _ now _ => now
+
+/-- a command (or a pop made for a blocking client) finds no dead entry left in its database: whatever deadline has
+    passed by then, the key was removed — an `expire` event — before.  (An `expire` event itself asks for nothing.) -/
+def quietEv (c : Conn) : Ev → Bool
+  | .expire _ _ _ => true
+  | ev => quietStep c (evDb c ev) (evNow ev)
 
 def quietLive (q : Quirks) (c : Conn) : List Ev → Bool
   | [] => true
-  | ev :: h => quietStep c (evDb c ev) (evNow ev) && quietLive q (execEv q c ev) h
+  | ev :: h => quietEv c ev && quietLive q (execEv q c ev) h
 
 def quietReplay (q : Quirks) (c : Conn) : List REntry → Bool
   | [] => true
